@@ -15,7 +15,7 @@ spec/Reader.tla (L): reader.py as a state machine; the environment chooses docum
      form under seeded read-size schedules with splits forced at refill boundaries, inside multi-byte sequences, inside
      surrogate pairs and between CR and LF; reader-level and pipeline-level observations judged by TLC (Trace_Delivery).
 """
-import glob, hashlib, json, os, random, re, threading, multiprocessing as mp
+import glob, hashlib, json, os, random, re, threading, time, zlib, multiprocessing as mp
 from .. import tlc, tlaval, trace
 from ..common import Verdict, use_repo, REPO, SEED
 from ..drivers import delivery as D
@@ -35,6 +35,8 @@ def tla_set(xs):
 
 def cfg(alphabet, maxdoc, forms=ALL_FORMS, programs=('any',), history=False, fixed=False, peek=2, prefix=3, fwd=2, maxbad=2,
         block=4):
+    if 'any' not in programs:                 # scripted consumers need the bounds of their own calls
+        peek, prefix, fwd = 3, 4, 3
     return {'Alphabet': tla_set(alphabet), 'MaxDoc': maxdoc, 'FormsC': tla_set(forms), 'Programs': tla_set(programs),
             'History': 'TRUE' if history else 'FALSE', 'PrintableFirst': 'TRUE' if fixed else 'FALSE',
             'MaxPeek': peek, 'MaxPrefix': prefix, 'MaxFwd': fwd, 'MaxBad': maxbad, 'Block': block}
@@ -44,38 +46,53 @@ def design_configs(tier, fixed):
     q = tier == 'quick'
     n = 3 if q else 4
     out = [
-        ('widths', cfg(A_WIDTHS, n, forms=['s8', 's8bom', 's16le', 's16be', 'text', 'b8', 'b16be'], fixed=fixed)),
-        ('breaks', cfg(A_BREAKS, n, forms=['str', 'text', 's8', 's16le', 'b8bom', 'b16le'], fixed=fixed)),
-        ('errors', cfg(A_ERRORS, n, fixed=fixed)),
+        ('widths', cfg(A_WIDTHS, n, forms=['s8', 's8bom', 's16le', 'text', 'b16be'] if q else ['s8', 's8bom', 's16le', 's16be', 'text', 'b16be', 'b8'], fixed=fixed,
+                       peek=1 if q else 2, prefix=2 if q else 3)),
+        ('breaks', cfg(A_BREAKS, n, forms=['str', 'text', 's8', 's16le'] if q else ['str', 'text', 's8', 's16le', 'b8bom'], fixed=fixed,
+                       peek=1 if q else 2, prefix=2 if q else 3)),
+        ('errors', cfg(A_ERRORS, n, forms=['str', 'b8', 'b16le', 'text', 's8', 's8bom', 's16le', 's16be'] if q else ALL_FORMS, fixed=fixed)),
     ]
     if not q:
         out += [('block3', cfg(['A', 'B3', 'B4', 'CR', 'LF', 'NP1', 'INV', 'TR2'], 3, block=3, fixed=fixed)),
-                ('long', cfg(['A', 'B4', 'CR', 'LF'], 6, forms=['s8', 's16le', 'text'], programs=['p11', 'x22'], fixed=fixed))]
+                ('long', cfg(['A', 'B4', 'CR', 'LF'], 5, forms=['s8', 's16le', 'text'], programs=['p11', 'x22'], fixed=fixed))]
     return out
 
 
 def mbt_configs(tier, fixed):
+    """History configurations: every complete behaviour is exported and replayed"""
     q = tier == 'quick'
-    return [
-        ('m-widths', cfg(['A', 'B3', 'B4', 'CR', 'LF'], 3 if q else 4, forms=STREAMS + EAGER,
-                         programs=['p11', 'x22'] if q else ['p11', 'x22', 'p32'], history=True, fixed=fixed)),
-        ('m-breaks', cfg(['A', 'CR', 'LF', 'NEL', 'BOM'], 3 if q else 4, forms=['text', 's8', 's16be', 'str'],
-                         programs=['p21', 'x33'], history=True, fixed=fixed)),
-        ('m-errors', cfg(['A', 'B2', 'NP1', 'NP3', 'INV', 'TR1', 'TR2', 'ODD'], 3, forms=STREAMS + EAGER,
-                         programs=['p11', 'x33'] if q else ['p11', 'x33', 'p21'], history=True, fixed=fixed)),
+    h = dict(history=True, fixed=fixed)
+    out = [
+        ('m-w8', cfg(['A', 'B3', 'B4', 'CR', 'LF'], 3, forms=['s8', 'text', 'str', 'b8'], programs=['p11'], **h)),
+        ('m-w16', cfg(['A', 'B4', 'CR', 'LF'], 2, forms=['s16le', 's16be', 'b16le', 'b16be'], programs=['p11', 'x22'], **h)),
+        ('m-br', cfg(['A', 'CR', 'LF', 'NEL', 'BOM'], 3, forms=['text', 's8', 'str'], programs=['p21', 'x33'], **h)),
+        ('m-br16', cfg(['A', 'CR', 'LF', 'NEL', 'BOM'], 2, forms=['s16be'], programs=['x33', 'p11'], **h)),
+        ('m-er8', cfg(['A', 'B2', 'NP1', 'NP3', 'INV', 'TR1', 'TR2'], 3, forms=['s8', 's8bom', 'b8', 'text', 'str'], programs=['p11'], **h)),
+        ('m-er16', cfg(['A', 'B4', 'NP1', 'INV', 'TR1', 'ODD'], 2, forms=['s16le', 's16be', 'b16le'], programs=['p11', 'x33'], **h)),
     ]
+    if not q:
+        out += [
+            ('m-w8x', cfg(['A', 'B3', 'B4', 'CR', 'LF'], 2, forms=['s8bom', 's8', 'text'], programs=['x22', 'p32'], **h)),
+            ('m-w8t', cfg(['A', 'B2', 'B4', 'LS', 'LF'], 3, forms=['s8bom', 'b8bom'], programs=['p32'], **h)),
+            ('m-w16t', cfg(['A', 'B4', 'CR', 'LF'], 3, forms=['s16le'], programs=['p11'], **h)),
+            ('m-er8t', cfg(['A', 'B3', 'NP1', 'NP2', 'INV', 'TR2'], 3, forms=['s8', 's8bom', 'b8bom'], programs=['x33', 'p21'], **h)),
+            ('m-b3', cfg(['A', 'B3', 'CR', 'LF', 'INV'], 3, forms=['s8', 'text', 's16be'], programs=['p11'], block=3, **h)),
+        ]
+    return out
 
 
 ACTIONS = ['Reveal', 'Close', 'Construct', 'DetermineEncoding', 'UpdateRaw', 'UpdateLoop', 'Decode', 'Peek', 'Prefix',
            'Forward', 'Complete', 'ForwardStep', 'Finish']
 
 
-def run_parallel(jobs, workers):
+def run_parallel(jobs, workers, concurrent):
     """jobs: list of (name, kwargs for tlc.run) -> {name: result}; the runs share the cores"""
     out = {}
+    sem = threading.Semaphore(concurrent)
 
     def one(name, kw):
-        out[name] = tlc.run('Reader', workers=workers, **kw)
+        with sem:
+            out[name] = tlc.run('Reader', workers=kw.pop('workers', workers), **kw)
     th = [threading.Thread(target=one, args=j) for j in jobs]
     for t in th:
         t.start()
@@ -169,7 +186,9 @@ def encode_concrete(doc, conc, form):
         elif enc == 'utf-8':
             cand = D.BAD8[s]
             if s == 'INV' and prev in ('TR1', 'TR2'):
-                cand = [x for x in cand if not 0x80 <= x[0] <= 0xbf]
+                cand = [x for x in cand if not 0x80 <= x[0] <= 0xbf]    # a continuation byte would complete the sequence
+            if s == 'INV' and prev == 'INV' and len(pieces) == 1:
+                cand = [x for x in cand if x not in (b'\xff', b'\xfe')]    # FF FE / FE FF at the start IS a UTF-16 BOM
             pieces.append(cand[ch[1] % len(cand)])
         elif s == 'ODD':
             pieces.append([b'a', b'\xd8', b'\x00'][ch[1] % 3])
@@ -183,7 +202,7 @@ def encode_concrete(doc, conc, form):
 
 
 def replay_work(args):
-    groups, seed, nconc = args
+    groups, seed, nconc, maxsched = args
     yaml = use_repo()
     from yaml.reader import Reader, ReaderError
     res = {'n': 0, 'runs': 0, 'bad': [], 'drift': 0, 'drift_ex': [], 'traces': [], 'meta': [], 'samples': [], 'nontrivial': 0,
@@ -191,8 +210,9 @@ def replay_work(args):
     for lines in groups:
         parsed = [tlaval.parse(ln) for ln in lines]
         doc = parsed[0][2]
+        errs = {}
         for c in range(nconc):
-            conc = concretise_doc(doc, doc_rnd(seed, doc, c), syntax=(c % 2 == 1))
+            conc = concretise_doc(doc, doc_rnd(seed, doc, c), syntax=((zlib.crc32(','.join(doc).encode()) + c) % 2 == 1))
             for form, prog, _doc, calls, pc, T, hpos, einfo, lfin in parsed:
                 if c == 0:
                     res['n'] += 1
@@ -211,7 +231,7 @@ def replay_work(args):
                     r = Reader(src)
                     got = D.drive(r, prog)
                 except ReaderError as e:
-                    rerr = ('unprintable' if e.encoding == 'unicode' else 'undecodable', e.position)
+                    rerr = (D.reader_kind(e), e.position)
                 except Exception as e:
                     exc = type(e).__name__
                 res['runs'] += 1
@@ -228,14 +248,20 @@ def replay_work(args):
                     elif len(got) > len(want):
                         why = ('char', 'the reader delivered %r beyond the document %r' % (got[len(want)], text))
                     elif pc == 'error':
-                        hk, hp = einfo[0], einfo[1]
+                        hk, hp, hs = einfo[0], einfo[1], einfo[2]
                         if rerr is None:
                             why = ('error-missing', 'offending unit %s at %d not reported' % (hk, hp))
-                        elif rerr != (hk, hp):
-                            offs = [(o['kind'], o['pos']) for o in tlaval.setval(einfo[4])]
-                            why = ('error-not-first' if rerr in offs else 'error-offset',
+                        elif not (rerr[0] == hk and hp <= rerr[1] <= hp + hs):
+                            offs = [o for o in tlaval.setval(einfo[5])
+                                    if o['kind'] == rerr[0] and o['pos'] <= rerr[1] <= o['pos'] + o['span']]
+                            why = ('error-not-first' if offs else 'error-offset',
                                    'ReaderError %r, first offending unit is %r' % (rerr, (hk, hp)))
                             case['got'], case['want'] = rerr[0], hk
+                        else:                     # inside the span: the same unit under every schedule
+                            first = errs.setdefault((form, c), (rerr, calls))
+                            if first[0] != rerr:
+                                why = ('error-schedule-dependent', 'ReaderError %r with read sizes %r but %r with %r'
+                                       % (rerr, calls, first[0], first[1]))
                     elif rerr is not None:
                         why = ('error-spurious', 'ReaderError %r on a document without offending unit' % (rerr,))
                     elif len(got) < len(want):
@@ -245,7 +271,7 @@ def replay_work(args):
                                                'got': case.get('got', ''), 'want': case.get('want', '')},
                                        'detail': dict(case, why=why[1])})
                 elif form in D.STREAM:                       # L drift probes (internal attributes, never a verdict)
-                    lerr = (einfo[2], einfo[3]) if pc == 'error' else None
+                    lerr = (einfo[3], einfo[4]) if pc == 'error' else None
                     sp = getattr(r, 'stream_pointer', None) if r is not None else None
                     if (rerr is not None and lerr is not None and rerr != lerr) or src.extra or src.k != len(calls) or \
                             (sp is not None and pc == 'end' and sp != lfin[0]):
@@ -256,7 +282,19 @@ def replay_work(args):
                 if len(res['samples']) < 1 and pc == 'error' and len(calls) > 2:
                     res['samples'].append(dict(case, error=rerr))
             # the same triples through the whole pipeline, judged by TLC against the in-memory delivery
-            ts = pipe_traces(yaml, doc, conc, sorted({(p[0], tuple(p[3])) for p in parsed}))
+            byform = {}
+            for p in parsed:
+                byform.setdefault(p[0], set()).add(tuple(p[3]))
+            dels = []
+            for f in sorted(byform):          # the schedules of each form: all of them, or a seeded sample with the extremes
+                ss = sorted(byform[f])
+                if len(ss) > maxsched:
+                    keep = {ss[0], ss[-1], min(ss, key=len), max(ss, key=len)}
+                    rs = doc_rnd(seed, doc, 1000 + c)
+                    keep |= set(rs.sample(ss, maxsched - len(keep)))
+                    ss = sorted(keep)
+                dels += [(f, x) for x in ss]
+            ts = pipe_traces(yaml, doc, conc, dels)
             res['traces'] += ts
             res['meta'] += [{'doc': doc, 'conc': repr(conc)}] * len(ts)
     return res
@@ -280,11 +318,17 @@ def outcome(yaml, api, be, src, form):
             e['pi'] -= 1                   # index is not compared when a BOM is present (5.0): normalised to the document
         e['problem'] = hitem(e['problem'])
         e['context'] = hitem(e['context'])
-    return {'form': form, 'api': api, 'be': be, 'st': o['st'], 'items': D.digest([hitem(x) for x in o['items']]), 'err': e,
-            'raw_err': o['err']}
+    hs = [hitem(x) for x in o['items']]
+    cum, last = [], ''
+    if o['st'] == 'err':                  # what was yielded before the error, as running digests (prefix comparisons)
+        for x in hs:
+            last = hashlib.sha1((last + x).encode()).hexdigest()[:10]
+            cum.append(last)
+    return {'form': form, 'api': api, 'be': be, 'st': o['st'], 'items': D.digest(hs), 'n': len(cum), 'last': last, 'cum': cum,
+            'err': e, 'raw_err': o['err']}
 
 
-def offsets(text, tail_enc):
+def offsets(text, tail_enc, span=0):
     """abstraction of the document: offending units with their offset in every form, as each back-end counts them"""
     def upos(form, i, be):
         enc = D.ENC[form]
@@ -295,16 +339,16 @@ def offsets(text, tail_enc):
     m = D.NONPRINTABLE.search(text)
     if m:
         i = m.start()
-        defects.append({'kind': 'unprintable', 'cidx': i, 'ppos': {f: i + (1 if f in D.BOM else 0) for f in D.FORMS},
+        defects.append({'kind': 'unprintable', 'cidx': i, 'span': 0, 'ppos': {f: i + (1 if f in D.BOM else 0) for f in D.FORMS},
                         'cpos': {f: upos(f, i, 'c') for f in D.FORMS}})
     if tail_enc is not None:
         i = len(text)
         b = {f: (upos(f, i, 'c') if D.ENC[f] == tail_enc else -1) for f in D.FORMS}
-        defects.append({'kind': 'undecodable', 'cidx': i, 'ppos': b, 'cpos': b})
+        defects.append({'kind': 'undecodable', 'cidx': i, 'span': span, 'ppos': b, 'cpos': b})
     return defects
 
 
-def pipe_trace_set(yaml, text, tails, deliveries, meta_sym=()):
+def pipe_trace_set(yaml, text, tails, deliveries, spans=None, backends=('py', 'c')):
     """text: the decodable characters of the document; tails: {} or {encoding: bytes that follow them, beginning with an
     undecodable piece}; deliveries: list of (form, schedule).  One trace per (back-end, API): the in-memory delivery (str, or
     the bytes object when the document is not decodable) against all others."""
@@ -314,6 +358,7 @@ def pipe_trace_set(yaml, text, tails, deliveries, meta_sym=()):
             return text
         return D.BOM.get(form, b'') + text.encode(enc, 'surrogatepass') + tails.get(enc, b'')
     breaks, boms = D.line_structure(text)
+    spans = spans or {}
     traces = []
     groups = {}
     for form, sched in deliveries:
@@ -323,21 +368,22 @@ def pipe_trace_set(yaml, text, tails, deliveries, meta_sym=()):
             continue
         groups.setdefault(g, []).append((form, sched))
     for g, dels in groups.items():
-        defects = offsets(text, g if tails else None)
+        defects = offsets(text, g if tails else None, spans.get(g, 0) if tails else 0)
         ref_form = 'str' if not tails else {'utf-8': 'b8', 'utf-16-le': 'b16le', 'utf-16-be': 'b16be'}[g]
-        for be in ('py', 'c'):
+        for be in backends:
             for api in D.APIS:
                 ref = outcome(yaml, api, be, raw(ref_form), ref_form)
                 seen, outs = {}, []
                 for form, sched in dels:
                     data = raw(form)
-                    src = D.ScriptedStream(data, sched) if form in D.STREAM else data
+                    src = (D.CutStream(data, sched) if isinstance(sched, _CutSched) else D.ScriptedStream(data, sched)) \
+                        if form in D.STREAM else data
                     o = outcome(yaml, api, be, src, form)
                     k = json.dumps([o['st'], o['items'], o['err'], form if o['err']['rd'] else ''], sort_keys=True)
                     if k in seen:
-                        seen[k]['n'] += 1
+                        seen[k]['cnt'] += 1
                         continue
-                    o['n'] = 1
+                    o['cnt'] = 1
                     o['sched'] = list(sched[:16])
                     seen[k] = o
                     outs.append(o)
@@ -351,13 +397,14 @@ def pipe_traces(yaml, doc, conc, deliveries):
     the rest is the tail of each encoding"""
     cut = next((i for i, s in enumerate(doc) if s in ('INV', 'TR1', 'TR2', 'ODD')), None)
     text = ''.join(conc[:cut] if cut is not None else conc)
-    tails = {}
+    tails, spans = {}, {}
     if cut is not None:
         for enc, form in (('utf-8', 'b8'), ('utf-16-le', 'b16le'), ('utf-16-be', 'b16be')):
             if all(s not in ('TR2',) or enc == 'utf-8' for s in doc) and all(s != 'ODD' or enc != 'utf-8' for s in doc):
                 _, pieces = encode_concrete(doc, conc, form)
                 tails[enc] = b''.join(pieces[cut:])
-    return pipe_trace_set(yaml, text, tails, deliveries)
+                spans[enc] = len(pieces[cut])
+    return pipe_trace_set(yaml, text, tails, deliveries, spans)
 
 
 def strip_raw(t):
@@ -375,13 +422,238 @@ def judge_pipe(v, traces, metas, tag, stage):
         if not ok:
             o = t['dels'][at - 1] if at >= 1 else t['ref']
             key = {'level': 'pipeline', 'stage': stage, 'clause': why, 'backend': o['be'], 'api': o['api']}
-            if why == 'reader error is not the first offending unit':
+            if why == 'reader error is not the first offence':
                 key['got'] = o['err']['rkind']
             v.violation(key, {'input': m, 'delivery': {k: o[k] for k in ('form', 'api', 'be', 'st', 'sched') if k in o},
                               'error': o.get('raw_err'), 'reference': {'form': t['ref']['form'], 'st': t['ref']['st'],
                                                                        'error': t['ref'].get('raw_err')},
                               'defects': t['defects']})
     return len(traces), s
+
+
+# ------------------------------------------------------------------------------------------------ (c) corpus, code -> spec
+LINE_POOL = ['- key: value\n', '- "caf\xe9 \u20ac": [1, 2, \U0001F600]\r\n', '- {a: b, c: d}\r', '- \u044f\u0437\u044b\u043a # comment \U0001D11E\n',
+             '- plain \xe9\xe9\xe9\xe9 text\x85', "- 'single \u4e2d\u6587'\u2028", '- |\n  literal \U0001F600\U0001F600\n  more\r\n', '- &a x\n',
+             '- *a\n', '- ? k\n  : v\r\n', '-\r\n  - nested\r\n  - \U0010FFFF\n', '- "\\u00e9 \\x41"\n']
+
+
+def big_document(rnd, size):
+    out, n = [], 0
+    while n < size:
+        ln = rnd.choice(LINE_POOL)
+        if ln == '- *a\n' and '- &a x\n' not in out:
+            continue
+        out.append(ln)
+        n += len(ln)
+    return ''.join(out)
+
+
+def corpus_documents(tier, rnd):
+    """(name, text, tails, spans): corpus files as they are, mutated (non-printable inserted, syntax damaged, undecodable bytes
+    appended or inserted, truncated inside a sequence) and generated documents longer than three real blocks"""
+    q = tier == 'quick'
+    files = sorted(glob.glob(os.path.join(REPO, 'tests/legacy_tests/data/*')))
+    texts = []
+    for f in files:
+        if f.endswith(('.code', '.py', '.pyc', '.detect')):
+            continue
+        b = open(f, 'rb').read()
+        t = None
+        for enc, bom in (('utf-16-le', b'\xff\xfe'), ('utf-16-be', b'\xfe\xff'), ('utf-8', b'\xef\xbb\xbf'), ('utf-8', b'')):
+            if b.startswith(bom):
+                try:
+                    t = b[len(bom):].decode(enc)
+                except UnicodeDecodeError:
+                    t = None
+                break
+        if t is None or not t or t[0] == BOMCH:
+            continue
+        texts.append((os.path.basename(f), t))
+    big = sorted(texts, key=lambda x: -len(x[1]))[:3 if q else 6]
+    uni = [x for x in texts if x[0].endswith('.unicode')]
+    rest = [x for x in texts if x not in big and x not in uni]
+    rnd.shuffle(rest)
+    chosen = big + uni + rest[:30 if q else 110]
+    docs = [(n, t, {}, {}) for n, t in chosen]
+    syn = ['[', ']', '{', '}', ':', '- ', '"', "'", '&a ', '*b', '\t', '%', '@', '`', '---\n', '...\n']
+    for n, t in chosen[:len(chosen) if not q else 16]:
+        k = rnd.randrange(len(t) + 1)
+        np = rnd.choice(['\x01', '\x00', '\x7f', '\x80', '\ufffe', '\uffff', '\x9f'])
+        docs.append((n + '~np', t[:k] + np + t[k:], {}, {}))
+        j = rnd.randrange(len(t) + 1)
+        docs.append((n + '~syn', t[:j] + rnd.choice(syn) + t[j:], {}, {}))
+        # both: a syntax error and a non-printable character (several defects)
+        docs.append((n + '~syn+np', t[:min(j, k)] + rnd.choice(syn) + t[min(j, k):max(j, k)] + np + t[max(j, k):], {}, {}))
+        # undecodable: a bad piece at position k, then the rest of the text; per encoding
+        tails, spans = {}, {}
+        bad8 = rnd.choice([b'\xff', b'\xc3', b'\xe2\x82', b'\xf0\x9f\x98', b'\x80'])
+        if not (bad8[0] >= 0xc0 and t[k:k + 1] and 0x80 <= t[k:].encode('utf-8', 'surrogatepass')[0] <= 0xbf):
+            tails['utf-8'] = bad8 + t[k:].encode('utf-8', 'surrogatepass')
+            spans['utf-8'] = len(bad8)
+        for enc in ('utf-16-le', 'utf-16-be'):
+            bad16 = rnd.choice(['\udc00', '\ud83d']).encode(enc, 'surrogatepass')
+            rest_ = t[k:].encode(enc, 'surrogatepass')
+            if bad16 == '\ud83d'.encode(enc, 'surrogatepass') and t[k:k + 1] and 0xdc00 <= ord(t[k]) <= 0xdfff:
+                continue
+            tails[enc] = bad16 + rest_
+            spans[enc] = 2
+        docs.append((n + '~bad', t[:k], tails, spans))
+        # truncated at the very end, inside a sequence
+        docs.append((n + '~trunc', t, {'utf-8': b'\xe2\x82', 'utf-16-le': b'\x3d', 'utf-16-be': b'\xd8\x3d'},
+                     {'utf-8': 2, 'utf-16-le': 1, 'utf-16-be': 2}))
+    # longer than three real blocks: 3 x 4096 for the Python reader, 3 x 16384 bytes for LibYAML's input handler
+    sizes = [(13000, ('py', 'c'))] if q else [(9000, ('py', 'c')), (13000, ('py', 'c')), (17000, ('py', 'c')), (34000, ('c',))]
+    for sz, bes in sizes:
+        t = big_document(rnd, sz)
+        k = rnd.randrange(len(t) // 2, len(t))
+        docs.append(('generated-%d' % sz, t, {}, {}, bes))
+        docs.append(('generated-%d~np' % sz, t[:k] + '\x01' + t[k:], {}, {}, bes))
+        docs.append(('generated-%d~syn' % sz, t[:k] + ' ]\n' + t[k:], {}, {}, bes))
+        docs.append(('generated-%d~bad' % sz, t[:k], {'utf-8': b'\xe2\x82' + t[k:].encode('utf-8'), 'utf-16-le': b'\x00\xdc' + t[k:].encode('utf-16-le')},
+                     {'utf-8': 2, 'utf-16-le': 2}, bes))
+    for sz in ([50500] if q else [50500, 70000]):
+        t = big_document(rnd, sz)
+        k = rnd.randrange(len(t) - 3000, len(t))
+        docs.append(('generated-%d' % sz, t, {}, {}, ('c',)))
+        docs.append(('generated-%d~bad' % sz, t[:k], {'utf-8': b'\xf0\x9f' + t[k:].encode('utf-8'), 'utf-16-be': b'\xdc\x00' + t[k:].encode('utf-16-be')},
+                     {'utf-8': 2, 'utf-16-be': 2}, ('c',)))
+        if not q:
+            docs.append(('generated-%d~np' % sz, t[:k] + '\x7f' + t[k:], {}, {}, ('c',)))
+    return [d if len(d) == 5 else d + (('py', 'c'),) for d in docs]
+
+
+def schedules_for(data, rnd, n, big):
+    """cut offsets (absolute) for n deliveries of `data`: refill boundaries, inside multi-byte sequences / surrogate pairs,
+    between CR and LF, fixed small pieces, random pieces"""
+    ic = D.interesting_cuts(data)
+    out = [[]]                                                            # full blocks
+    L = len(data)
+    for k in range(n - 1):
+        m = k % 6
+        if m == 0 and ic['multi']:
+            out.append(sorted(rnd.sample(ic['multi'], min(len(ic['multi']), rnd.choice([1, 3, 40])))) + ic['refill'][:0])
+        elif m == 1 and ic['crlf']:
+            out.append(sorted(set(rnd.sample(ic['crlf'], min(len(ic['crlf']), 20)))))
+        elif m == 2 and ic['refill']:
+            base = rnd.choice([4096, 16384])
+            d = rnd.choice([-1, 0, 1, 2, -2, 3])
+            out.append([x for x in range(base + d, L, base) if x > 0] + rnd.sample(ic['multi'], min(len(ic['multi']), 5)))
+        elif m == 3:
+            c = rnd.choice([1, 2, 3, 5, 7]) if not big else rnd.choice([1000, 4095, 4097, 613, 16383])
+            out.append(list(range(c, L, c)))
+        elif m == 4:
+            x, cuts = 0, []
+            hi = rnd.choice([3, 9, 60]) if not big else rnd.choice([200, 5000, 20000])
+            while x < L:
+                x += rnd.randint(1, hi)
+                cuts.append(x)
+            out.append(cuts)
+        else:
+            out.append([1] + sorted(rnd.sample(ic['multi'] + ic['crlf'] + ic['refill'] + [2, 3],
+                                               min(len(ic['multi'] + ic['crlf'] + ic['refill']) + 2, rnd.choice([2, 6])))))
+    return out
+
+
+def reader_trace(yaml, name, text, form, data, cuts, tail_span, rnd):
+    """a real Reader over a CutStream (or the in-memory data), consumer p11 (peek, forward 1) with occasional prefix/peek
+    look-aheads; the observation for Trace_Delivery (kind reader)"""
+    from yaml.reader import Reader, ReaderError
+    bom = 1 if form in D.BOM else 0
+    m = D.NONPRINTABLE.search(text)
+    good = text[:m.start()] if m else text
+    complete = not m and tail_span is None
+    ideal = (BOMCH if bom else '') + good + ('\0' if complete else '')
+    cls = D.classes_of(ideal)
+    want = {'kind': '-', 'pos': 0, 'span': 0}
+    offs = []
+    if m:
+        offs.append({'kind': 'unprintable', 'pos': m.start() + bom, 'span': 0})
+    if tail_span is not None and D.ENC[form]:
+        offs.append({'kind': 'undecodable', 'pos': len(D.BOM.get(form, b'')) + len(text.encode(D.ENC[form], 'surrogatepass')),
+                     'span': tail_span})
+    if offs:
+        want = offs[0]
+    src = D.CutStream(data, cuts) if form in D.STREAM else data
+    got, obs, err = [], [], {'kind': '-', 'pos': 0}
+    marks = set()
+    if form in D.STREAM and cuts:          # sample positions next to the cuts (in characters, roughly) and every 499th
+        pass
+    try:
+        r = Reader(src)
+        n = 0
+        while True:
+            ch = r.peek()
+            got.append(ch)
+            if ch == '\0':
+                break
+            if n % 7 == 3:
+                p = r.prefix(3)
+                if p[:1] != ch:
+                    got.append('?')
+            r.forward()
+            n += 1
+            if n < 24 or n % 211 == 0 or (ch in '\r\n\x85\u2028\u2029\ufeff' and len(obs) < 300) or rnd.random() < 0.01:
+                obs.append([r.index, r.line, r.column])
+    except ReaderError as e:
+        err = {'kind': D.reader_kind(e), 'pos': e.position}
+    except Exception as e:
+        err = {'kind': 'exception:' + type(e).__name__, 'pos': 0}
+    if len(obs) > 120:
+        obs = obs[:40] + rnd.sample(obs[40:], 80)
+    gcls = D.classes_of(''.join(got))
+
+    def blocks(s):
+        k = len(s) - len(s) % 64
+        return [s[i:i + 64] for i in range(0, k, 64)], list(s[k:])
+    cb, ct = blocks(cls)
+    gb, gt = blocks(gcls)
+    if len(gb) < len(cb):                  # stopped early (error): compare the partial block letter by letter
+        ct = list(cls[len(gb) * 64:len(gb) * 64 + 64])
+    breaks, boms = D.line_structure(ideal)
+    sym = []
+    return {'kind': 'reader', 'form': form, 'sym': sym, 'cls': cb, 'ctail': ct, 'got': gb, 'gtail': gt, 'breaks': breaks,
+            'boms': boms, 'obs': obs, 'want': want, 'offs': offs, 'err': err}
+
+
+def corpus_work(args):
+    docs, seed, tier = args
+    yaml = use_repo()
+    q = tier == 'quick'
+    out = {'rtraces': [], 'rmeta': [], 'ptraces': [], 'pmeta': [], 'deliveries': 0}
+    for name, text, tails, spans, backends in docs:
+        rnd = random.Random('%d/%s' % (seed, name))
+        big = len(text) > 8000
+        nsched = (3 if big else 4) if q else (6 if big else 10)
+        deliveries = []
+        forms = D.FORMS if not tails else [f for f in D.FORMS if D.ENC[f] in tails]
+        for form in forms:
+            enc = D.ENC[form]
+            data = text if enc is None else D.BOM.get(form, b'') + text.encode(enc, 'surrogatepass') + tails.get(enc, b'')
+            if form in D.STREAM:
+                for cuts in schedules_for(data, rnd, nsched, big):
+                    deliveries.append((form, cuts, data))
+            else:
+                deliveries.append((form, [], data))
+        # pipeline level
+        dl = [(f, _CutSched(c)) for f, c, _ in deliveries]
+        ts = pipe_trace_set(yaml, text, tails, dl, spans, backends)
+        out['ptraces'] += ts
+        out['pmeta'] += [{'input': name, 'chars': len(text)}] * len(ts)
+        out['deliveries'] += sum(t['ndel'] + 1 for t in ts)
+        # reader level
+        if 'py' not in backends:
+            continue
+        rsel = [d for i, d in enumerate(deliveries) if d[0] not in D.STREAM or i % (4 if big or not q else 2) == 0]
+        for form, cuts, data in rsel:
+            t = reader_trace(yaml, name, text, form, data, cuts, spans.get(D.ENC[form]) if tails else None, rnd)
+            out['rtraces'].append(t)
+            out['rmeta'].append({'input': name, 'form': form, 'cuts': cuts[:20], 'chars': len(text)})
+    return out
+
+
+class _CutSched(tuple):
+    """a schedule given as absolute cut offsets (marks the delivery for pipe_trace_set)"""
+    cuts = True
 
 
 # ------------------------------------------------------------------------------------------------ main
@@ -396,11 +668,18 @@ def main(tier, replay=None):
     dc = design_configs(tier, fixed)
     mcs = mbt_configs(tier, fixed)
     jobs = [(n, dict(cfg=mc, constants=c, tag='C07_' + n, timeout=3000, heap='5g')) for n, c in dc]
+    if not q:                         # the two large configurations first and with more workers
+        for n, kw in jobs:
+            if n in ('widths', 'breaks'):
+                kw['workers'] = 8
     if not fixed:       # the strict clause against the repaired model: evidence that H_Error is satisfiable by a small repair
-        jobs.append(('repair', dict(cfg='MC_Reader_strict.cfg', constants=cfg(A_ERRORS, 3, fixed=True), tag='C07_repair',
+        jobs.append(('repair', dict(cfg='MC_Reader_strict.cfg', constants=cfg(A_ERRORS, 3, forms=['b8', 's8', 's16be'], fixed=True), tag='C07_repair',
                                     timeout=3000, heap='4g')))
     jobs += [(n, dict(cfg=mc, constants=c, tag='C07_' + n, timeout=3000, heap='5g', coverage=False)) for n, c in mcs]
-    res = run_parallel(jobs, workers=3 if q else 4)
+    t0 = time.time()
+    res = run_parallel(jobs, workers=3 if q else 4, concurrent=6 if q else 5)
+    phases = {'tlc': round(time.time() - t0, 1)}
+    t0 = time.time()
     fired = {}
     for n, _kw in jobs:
         r = res[n]
@@ -430,7 +709,9 @@ def main(tier, replay=None):
     nchunks = 64
     chunks = [glist[i::nchunks] for i in range(nchunks)]
     with mp.Pool(16) as pool:
-        outs = pool.map(replay_work, [(c, SEED, 2 if q else 3) for c in chunks if c], chunksize=1)
+        outs = pool.map(replay_work, [(c, SEED, 1 if q else 2, 12 if q else 32) for c in chunks if c], chunksize=1)
+    phases['replay'] = round(time.time() - t0, 1)
+    t0 = time.time()
     n = sum(o['n'] for o in outs)
     if n != len(lines):
         raise SystemExit('machinery failure: replayed %d behaviours, TLC exported %d' % (n, len(lines)))
@@ -449,9 +730,38 @@ def main(tier, replay=None):
     pmeta = [m for o in outs for m in o['meta']]
     npipe, s2 = judge_pipe(v, ptraces, pmeta, 'C07_pipe', 'tlc-triples')
     states += s2
+    phases['judge_pipe'] = round(time.time() - t0, 1)
     deliveries = sum(t['ndel'] + 1 for t in ptraces)
+    # (c) code -> spec: corpus documents under seeded schedules, judged by TLC
+    t0 = time.time()
+    docs = corpus_documents(tier, random.Random(SEED))
+    docs.sort(key=lambda d: -len(d[1]))
+    nch = 48
+    with mp.Pool(16) as pool:
+        couts = pool.map(corpus_work, [(docs[i::nch], SEED, tier) for i in range(nch) if docs[i::nch]], chunksize=1)
+    phases['corpus'] = round(time.time() - t0, 1)
+    t0 = time.time()
+    rtraces = [t for o in couts for t in o['rtraces']]
+    rmeta = [m for o in couts for m in o['rmeta']]
+    verdicts, s3 = trace.judge('Trace_Delivery', rtraces, 'C07_rcorpus')
+    states += s3
+    for t, m, (ok, why, at) in zip(rtraces, rmeta, verdicts):
+        if not ok:
+            clause = 'error-not-first' if why == 'reader error is not the first offence' else why
+            v.violation({'level': 'reader', 'stage': 'corpus', 'clause': clause, 'backend': 'py',
+                         'got': t['err']['kind'] if clause == 'error-not-first' else '',
+                         'want': t['want']['kind'] if clause == 'error-not-first' else ''},
+                        {'input': m, 'error': t['err'], 'first_offending_unit': t['want'], 'at': at})
+    cptraces = [t for o in couts for t in o['ptraces']]
+    cpmeta = [m for o in couts for m in o['pmeta']]
+    ncp, s4 = judge_pipe(v, cptraces, cpmeta, 'C07_pcorpus', 'corpus')
+    states += s4
+    cdel = sum(o['deliveries'] for o in couts)
+    phases['judge_corpus'] = round(time.time() - t0, 1)
     v.cov = {'states': states, 'transitions': trans, 'exhaustive': True,
-             'traces_validated_against_impl': runs + deliveries,
+             'traces_validated_against_impl': runs + deliveries + len(rtraces) + cdel,
+             'corpus_documents': len(docs), 'corpus_reader_traces_judged': len(rtraces), 'corpus_pipeline_traces_judged': ncp,
+             'corpus_pipeline_deliveries': cdel, 'corpus_largest_document_chars': max(len(d[1]) for d in docs),
              'reader_behaviours_replayed': len(lines), 'reader_replays': runs, 'model_outcomes': kinds,
              'pipeline_traces_judged': npipe, 'pipeline_deliveries': deliveries,
              'distinct_nontrivial': sum(o['nontrivial'] for o in outs),
@@ -459,7 +769,7 @@ def main(tier, replay=None):
                      'CR, NEL or BOM',
              'actions_fired': fired, 'code_variant': 'printable-first' if fixed else 'as pinned',
              'samples': [s for o in outs for s in o['samples']][:4],
-             'configs': {n: c for n, c in dc + mcs}}
+             'configs': {n: c for n, c in dc + mcs}, 'phase_seconds': phases}
     v.assumptions = ['documents do not begin with U+FEFF; index is not compared when a byte order mark is present',
                      'one abstract code unit = one byte (one character for text streams); Block = 4 (3) units in the model',
                      'the codecs are CPython\'s; their contract is the operator Dec of Reader.tla']
